@@ -205,7 +205,8 @@ EmitR(e) ==
 
 \* a payment of e.amt (GAS limbs) / e.w (NEO) from user e.u to contract e.v with token e.k:
 \* "GAS", "NEO" (native transfers), "FOREIGN" (a third contract calls onNEP17Payment), "DIRECT" (the
-\* transaction script calls onNEP17Payment itself)
+\* transaction script calls onNEP17Payment itself); "FOREIGNMINT" / "DIRECTMINT": the same two with a Null sender, the
+\* way a token announces freshly minted units
 PayR(e) ==
   LET u == e.u  t == e.v
   IN  CASE e.k = "GAS" ->
@@ -216,7 +217,7 @@ PayR(e) ==
              ELSE IF t # "alph" THEN FaultR
              ELSE [Keep EXCEPT !.ret = "true", !.gas = Minted(e),
                                !.neo = [[neo EXCEPT ![u] = @ - e.w] EXCEPT !["alph"] = @ + e.w]]
-        [] OTHER -> FaultR                                                   \* FOREIGN, DIRECT
+        [] OTHER -> FaultR                                                   \* FOREIGN, DIRECT (+MINT)
 
 \* Bind / Unbind(user, keys): notification only; e.w # 0: some key of the list is not 33 bytes long
 \* (the list itself - count, order, duplicates, empty - does not matter)
@@ -271,11 +272,11 @@ NextOf(P(_), PS(_), Sg(_, _), PH(_)) ==
           Apply(Inv0("bind", Sg(S, {u}), u, Nil, Z, w, k, Nil, NoMint))
     \/ "designate" \in Acts /\ \E n \in P(1..Len(IRSeq)) : Apply(Inv0("designate", Sg(S, {"CMT"}), Nil, Nil, Z, n, Nil, Nil, NoMint))
     \/ "emit" \in Acts /\ \E m \in P(Mints) : Apply(Inv0("emit", Sg(S, {MemberName(AlphIdx)}), Nil, Nil, Z, 0, Nil, Nil, MintTo("alph", m)))
-    \/ "pay" \in Acts /\ \E u \in P(Users), t \in P({"proc", "proxy", "alph"}), a \in P(Amounts), k \in P({"GAS", "FOREIGN", "DIRECT"}) :
+    \/ "pay" \in Acts /\ \E u \in P(Users), t \in P({"proc", "proxy", "alph"}), a \in P(Amounts), k \in P({"GAS", "FOREIGN", "DIRECT", "FOREIGNMINT", "DIRECTMINT"}) :
           Apply(Inv0("pay", S \cup {u}, u, t, a, 0, k, Nil, NoMint))
     \/ "pay" \in Acts /\ \E u \in P(Users), t \in P(Contracts), w \in P(Wholes \cap Nat), m \in P(Mints) :
           Apply(Inv0("pay", S \cup {u}, u, t, Z, w, "NEO", Nil, MintTo("alph", m)))
-    \/ "pay" \in Acts /\ \E u \in P(Users), a \in P(Amounts), k \in P({"FOREIGN", "DIRECT"}) :
+    \/ "pay" \in Acts /\ \E u \in P(Users), a \in P(Amounts), k \in P({"FOREIGN", "DIRECT", "FOREIGNMINT", "DIRECTMINT"}) :
           Apply(Inv0("pay", S \cup {u}, u, "neofs", a, 0, k, Nil, NoMint))
 
 -----------------------------------------------------------------------------
@@ -388,7 +389,7 @@ C19_EmitSplit(e) ==
 \* Proxy, Processing accept nothing but GAS, Alphabet GAS and NEO; NeoFS GAS only
 C19_OnlyGAS(e) ==
   e.act = "pay" =>
-    /\ e.k \in {"FOREIGN", "DIRECT"} \/ (e.k = "NEO" /\ e.v # "alph" /\ e.u \in e.S /\ neo[e.u] >= e.w)
+    /\ e.k \in {"FOREIGN", "DIRECT", "FOREIGNMINT", "DIRECTMINT"} \/ (e.k = "NEO" /\ e.v # "alph" /\ e.u \in e.S /\ neo[e.u] >= e.w)
           => e.res = "FAULT" /\ gas' = gas /\ neo' = neo
     /\ e.k = "GAS" /\ e.u \in e.S /\ Leq(e.amt, gas[e.u]) => e.res = "HALT" /\ gas' = Move(gas, e.u, e.v, e.amt)
     /\ e.k = "NEO" /\ e.v = "alph" /\ e.u \in e.S /\ neo[e.u] >= e.w
